@@ -111,6 +111,7 @@ type FuncSpec struct {
 	Results  []string
 	Ghosts   []Param
 	Requires []Clause
+	Assumes  []Clause // "assumes": entry conditions the body is verified under that are NOT checked at call sites (each is reported as an unchecked assumption)
 	Ensures  []Clause
 	Modifies []Expr
 	HasMod   bool // a modifies clause (possibly empty "modifies nothing") was given
@@ -508,7 +509,7 @@ var clauseKW = map[string]bool{
 	"spec": true, "func": true, "lemma": true, "guarded": true,
 	"requires": true, "ensures": true, "modifies": true, "ghost": true, "loop": true,
 	"invariant": true, "decreases": true, "unfold": true, "inline": true, "trusted": true,
-	"pure": true, "atomic": true, "param": true, "induction": true, "havoc": true, "nopanic": true, "unroll": true, "known-finding": true, "apply": true, "assert": true, "witness": true, "cs-pure": true, "inline-call": true, "lockinv": true, "opaque-calls": true, "signal-channels": true, "callback": true, "immutable": true, "ghost-arg": true,
+	"pure": true, "atomic": true, "param": true, "induction": true, "havoc": true, "nopanic": true, "unroll": true, "known-finding": true, "apply": true, "assert": true, "witness": true, "cs-pure": true, "inline-call": true, "lockinv": true, "opaque-calls": true, "signal-channels": true, "callback": true, "immutable": true, "ghost-arg": true, "assumes": true,
 }
 
 type rawClause struct {
@@ -720,6 +721,15 @@ func ParseContractFile(path string, src []byte, ps *PkgSpec) error {
 				return fmt.Errorf("%s:%d: assert outside loop", path, rc.line)
 			}
 			curLoop.Asserts = append(curLoop.Asserts, c)
+		case "assumes":
+			c, err := mkClause(rc)
+			if err != nil {
+				return err
+			}
+			if cur == nil || curParam != nil || curLoop != nil {
+				return fmt.Errorf("%s:%d: assumes outside func", path, rc.line)
+			}
+			cur.Assumes = append(cur.Assumes, c)
 		case "requires", "ensures", "invariant", "atomic":
 			c, err := mkClause(rc)
 			if err != nil {
